@@ -166,7 +166,7 @@ func (m *mesh) traceroute(src, dst string) ([]string, error) {
 func runC10Topo(t *testing.T, tp c10Topo, budgets []int) CaseOut {
 	var out CaseOut
 	out.Nontrivial = true
-	synctest.Test(t, func(t *testing.T) {
+	bubble(t, func(t *testing.T) {
 		m := newMesh(defaultConsts, tp.Names...)
 		for _, e := range tp.Edges {
 			m.upEdge(e)
@@ -273,7 +273,7 @@ func runC10Topo(t *testing.T, tp c10Topo, budgets []int) CaseOut {
 func runC10Loop(t *testing.T, three bool, budgets []int) CaseOut {
 	var out CaseOut
 	out.Nontrivial = true
-	synctest.Test(t, func(t *testing.T) {
+	bubble(t, func(t *testing.T) {
 		names := []string{"a"}
 		if three {
 			names = []string{"a", "b"}
